@@ -6,6 +6,7 @@ import (
 	"math/rand"
 	"sync"
 
+	"github.com/bytemare/secp256k1/internal/verif/alpha"
 	"github.com/bytemare/secp256k1/internal/verif/ev"
 	"github.com/bytemare/secp256k1/internal/verif/ref"
 )
@@ -167,6 +168,32 @@ func Lambdas() []*big.Int {
 
 		if l.Sign() != 0 {
 			out = append(out, l)
+		}
+	}
+
+	return out
+}
+
+// CoordPatternReps returns representations of G and H whose stored X resp. Y limbs are a member of the level-0
+// limb-product alphabet (every limb one of 0, 1, 2^64-1, p_i): the field arithmetic underneath the group law is
+// then driven with operands at its carry and borrow boundaries (a hand-written negation that forgets the borrow
+// out of the low limb, say), which happens for a random point only with probability about 2^-32.
+func CoordPatternReps() []Rep {
+	var out []Rep
+
+	g, h := ref.G(), HPoint()
+
+	for _, pat := range alpha.Strings256(ref.P, 0) {
+		if pat.Sign() == 0 || pat.Cmp(ref.P) >= 0 {
+			continue
+		}
+
+		want := ref.Unmont(ref.Limbs(pat), ref.P)
+
+		for _, pt := range []ref.Pt{g, h} {
+			for _, coord := range []*big.Int{pt.X, pt.Y} {
+				out = append(out, Rep{pt, ref.Fp.Mul(want, ref.Fp.Inv0(coord))})
+			}
 		}
 	}
 
